@@ -10,6 +10,14 @@ BASE = ("cd /repo && env -u TRACKLIB_VERIF_TRACE /venv/bin/python -m pytest -ra 
 
 # pid -> (module(s), technique, level text, level note, design ref)
 CHECKS = {
+    "C04": ("TrackSeq", "TLA+ definitions of the sequence operators + transcription of the insertion binary search, enumerated by "
+            "TLC; designated positions replayed on real tracks (spec->code), sort/insert judged by TrackSeqTrace.tla (code->spec)",
+            "TLC enumerates every timestamp sequence of length 0..5 (thorough 6) over a 5-value domain and, for each, every "
+            "argument of extract / extractSpanTime / % / > / < / removeObsList / +; the positions designated by the "
+            "specification are compared with the observations the real operators return (identity, order, feature table, source "
+            "untouched). sort() and chronological insertion are recorded on all those tracks, on all sorted tracks to size 12 "
+            "(18) and on random ones to size 40 and judged by acceptance predicates (any order among equal timestamps).",
+            "TLC 1.8; identity by unique coordinate/feature tags", "5/C04"),
     "C01": ("FeatureTable", "TLA+ state machine of the feature table (implementation-shaped: name->index order + per-observation "
             "lists) checked by TLC; every transition replayed with a real history (spec->code) and random histories "
             "over the whole operator catalogue validated by FeatureTableTrace.tla (code->spec)",
